@@ -62,13 +62,17 @@ CHECKS = {
  "C13": dict(
   text="Coq theorems, Closed under the global context, for every state: a received PUBLISH with an empty topic is delivered with exactly the "
        "topic bound to its alias on this connection, or rejected as Topic Alias invalid; both alias tables are dropped by notify_closed; "
-       "what is stored for retransmission carries the full topic, no alias and DUP. PARTIAL (C13_partial): the send-side history clause "
-       "(an empty topic is only sent with an alias that an earlier PUBLISH sent on this connection bound to that topic, incl. auto-map/"
-       "auto-replace/LRU) is decided by the monitor mon_c13 (independent receiver-side alias table replayed over the sent packets) and the "
-       "correspondence, not yet by a theorem.",
+       "what is stored for retransmission carries the full topic, no alias and DUP. SEND SIDE (C13_send_resolvable): against a ghost receiver "
+       "table built only from the packets requested for sending, for every state whose send-side table is covered by it, every send(PUBLISH) "
+       "— alias by the application, by automatic mapping incl. LRU eviction, by automatic replacement, stored or not, accepted or refused — "
+       "requests at most one packet, which the receiver resolves to the topic the application asked for, with an alias in 1..=Topic Alias "
+       "Maximum, and a binding enters the sender's table only with the packet that teaches it to the receiver; the table's insert_or_update "
+       "keeps its representation invariant (both maps consistent) for every table; fresh / closed objects and new tables satisfy the cover. "
+       "PARTIAL (C13_partial): the lift to whole histories (the other calls leave the table alone and send no aliased PUBLISH) is decided by "
+       "the monitor mon_c13 (independent receiver-side alias table replayed over the sent packets) and the correspondence.",
   ref="DESIGN.md §3 C13",
   note=CONN_NOTE,
-  technique="Coq per-step proofs + independent receiver-table monitor + differential correspondence"),
+  technique="Coq proofs (receive side; send side against a ghost receiver; alias-table invariant) + independent receiver-table monitor + differential correspondence"),
  "C14": dict(
   text="Coq theorems, Closed under the global context, for every state, limit and size: a v5.0 packet of any kind larger than the peer's Maximum "
        "Packet Size is never passed to the transport; an alias-rewritten publish is re-checked; everything retransmitted from the store fits "
